@@ -111,6 +111,13 @@ func (e *Engine) onPacket(reader enc.ParseReader) error {
 		e.log.Tracef("Received packet bytes: %v", wire.Join())
 	}
 
+	// A frame carries exactly one packet. The packet parser keeps only the last of several top-level
+	// TLVs, while the raw wire (implicit digest, RawData, RawInterest) would span the whole frame.
+	if !isSingleTLV(reader.Range(0, reader.Length())) {
+		e.log.Errorf("Received a frame that is not exactly one TLV. Drop.")
+		return nil
+	}
+
 	pkt, ctx, err := spec.ReadPacket(reader)
 	if err != nil {
 		e.log.Errorf("Failed to parse packet: %v", err)
@@ -127,6 +134,10 @@ func (e *Engine) onPacket(reader enc.ParseReader) error {
 		}
 		// Parse the inner packet.
 		raw = pkt.LpPacket.Fragment
+		if !isSingleTLV(raw) {
+			e.log.Errorf("Received an LpPacket whose fragment is not exactly one TLV. Drop.")
+			return nil
+		}
 		if len(raw) == 1 {
 			pkt, ctx, err = spec.ReadPacket(enc.NewBufferReader(raw[0]))
 		} else {
@@ -184,6 +195,19 @@ func (e *Engine) onPacket(reader enc.ParseReader) error {
 		log.Fatalf("Unreachable. Check spec implementation.")
 	}
 	return nil
+}
+
+// isSingleTLV reports whether wire consists of exactly one TLV block.
+func isSingleTLV(wire enc.Wire) bool {
+	r := enc.NewWireReader(wire)
+	if _, err := enc.ReadTLNum(r); err != nil {
+		return false
+	}
+	l, err := enc.ReadTLNum(r)
+	if err != nil {
+		return false
+	}
+	return uint64(r.Length()-r.Pos()) == uint64(l)
 }
 
 func (e *Engine) onInterest(args ndn.InterestHandlerArgs) {
